@@ -170,7 +170,22 @@ def check(R, F):
             R.require(need <= got and (which == 'additional' or 'arcount' not in got), 'scan-order', '%s|%s-loop-bound' % (HMWC, which), hm.where(pb),
                       'loop over the %s section is bounded by %s' % (which, '+'.join(want)),
                       'loop over the %s section is bounded by %s, expected %s' % (which, sorted(got), '+'.join(want)))
+        # every iteration consumes the record it peeked at: from each peek_rr call, every path that comes back to
+        # the same call (the loop's back edge) passes PeekRr::skip or PeekRr::parse
+        for which, pb in (('answer/authority', p1), ('additional', p2)):
+            consume = set(paths.call_blocks(hm, lambda n: n.endswith("PeekRr::<'r, 'b>::skip") or n.endswith("PeekRr::<'r, 'b>::parse")))
+            succ = hm.succs()[pb]
+            path = None
+            for s0 in succ:
+                path = hm.find_path(s0, lambda x: x == pb, avoid=consume)
+                if path:
+                    break
+            R.require(path is None, 'scan-advance', '%s|%s-loop' % (HMWC, which), hm.where(pb),
+                      'every iteration of the %s scan consumes the peeked record (skip or parse) before peeking again' % which,
+                      'a path returns to peek_rr without skipping or parsing the record just peeked at, so the same record is '
+                      'scanned again and the scan never reaches the end of the message: ' + (paths.fmt_path(hm, [pb] + path) if path else ''))
     else:
         R.bad('scan-order', HMWC + '|shape', hm.where(), 'expected exactly 1 mark, 1 rewind, 2 peek_rr, 1 at_eom, 1 read_question call; got %s' % [len(mark), len(rewind), len(peeks), len(eom), len(rq)])
     R.floor('formerr-arm', 11)
     R.floor('scan-order', 6)
+    R.floor('scan-advance', 2)
